@@ -46,7 +46,7 @@ func (c10) RealStub() map[string]string {
 }
 func (c10) Runs(t Tier) int {
 	if t == Thorough {
-		return 12000
+		return 50000
 	}
 	return 700
 }
